@@ -282,6 +282,7 @@ partial def loop (h : IO.FS.Stream) (out : IO.FS.Stream) : IO Unit := do
   let line ← h.getLine
   if line.isEmpty then return ()
   out.putStrLn (handle line)
+  out.flush      -- one reply per line, visible at once: the orchestrator's watchdog may end the process
   loop h out
 
 def main : IO Unit := do
